@@ -577,7 +577,9 @@ WF(c, d) ==
             /\ WF(c.nan, d.nan)
        [] c.k = "Stack" ->
             /\ (Plain(d.value) /\ Plain(d.nan)) => Add(c.bins[1].e, c.nan.e) = c.e
-            /\ Plain(d.value) => \A i \in 1..(Len(c.bins) - 1) : Ge(c.bins[i].e, c.bins[i + 1].e)
+            (* (levels decrease when the cuts increase; the constructor takes the thresholds in any order) *)
+            /\ (Plain(d.value) /\ \A i \in 1..(Len(c.ths) - 1) : Lt(c.ths[i], c.ths[i + 1]))
+                  => \A i \in 1..(Len(c.bins) - 1) : Ge(c.bins[i].e, c.bins[i + 1].e)
             /\ \A i \in DOMAIN c.bins : WF(c.bins[i], d.value)
             /\ WF(c.nan, d.nan)
        [] c.k = "Fraction" -> /\ Plain(d.value) => c.den.e = c.e
